@@ -68,7 +68,7 @@ Proof. reflexivity. Qed.
 
 Lemma pe_wc r fe fa ce ca ke ka : prepare_edges (with_corners r fe fa ce ca ke ka) =
   with_corners (prepare_edges r) fe fa ce ca ke ka.
-Proof. unfold prepare_edges, with_corners. cbn. destruct (existsb _ (edges r)); reflexivity. Qed.
+Proof. unfold prepare_edges, with_corners. cbn. destruct (edges_dropped _ (edges r)); reflexivity. Qed.
 
 Definition fc_result (fs : list (list Z)) (e a : list Z) : list Z * list Z :=
   if fc_regen (zlen e) (sum_len fs) then fcan fc_record fs else (e, a).
